@@ -1370,9 +1370,16 @@ def write_if_changed(path, txt):
     return True
 
 
-def generate(root=None, lean_out=None):
+def generate(root=None, lean_out=None, lock=True):
     """Regenerate Gen/CApi.lean (and the harness dispatch) from the tree under
-    study. Returns summary statistics and the table as plain data."""
+    study. Returns summary statistics and the table as plain data.  The lock
+    `capi-gen` serialises writers of Gen/CApi.lean: props/C20.py holds it from
+    the regeneration until its Lean build is done (and passes lock=False)."""
+    if lock:
+        sys.path.insert(0, VERIF)
+        from vlib import build
+        with build.Lock("capi-gen"):
+            return generate(root, lean_out, lock=False)
     data = collect(root)
     lean = emit_lean(data)
     changed = write_if_changed(lean_out or LEAN_OUT, lean)
@@ -1412,3 +1419,66 @@ if __name__ == "__main__":
         for w in t:
             print(w["name"], [(p["name"], p["role"], p["count"]) for p in w["params"]],
                   [(w["params"][u["param"]]["name"], u["kind"]) for u in w["uses"]], w["unsupported"])
+
+
+# --------------------------------------------------------------------------
+# self-test: fixed snippets (already preprocessed) with the expected analysis
+
+_SELFTEST = [
+    # (text, {param: role}, [(param, kind)], unsupported?, tryBlockOk?)
+    ('''PRIMITIV_C_STATUS primitivF(const primitivShape_t *shape, uint32_t i, uint32_t *retval) try {
+       if (!shape) { { std::stringstream ss; ss << "Argument `" "shape" "` must not be null."; throw primitiv::Error("a.cc", 1, ss.str()); }; };
+       if (!retval) { { std::stringstream ss; ss << "Argument `" "retval" "` must not be null."; throw primitiv::Error("a.cc", 2, ss.str()); }; };
+       *retval = to_cpp_ptr(shape)->operator[](i);
+       return 0;
+     } catch (const std::exception &e) { return primitiv::c::internal::ErrorHandler::get_instance().handle(e); }''',
+     {"shape": "inHandle", "i": "value", "retval": "outScalar"},
+     [("shape", "check"), ("retval", "check"), ("retval", "starWrite"), ("shape", "cppArrow"), ("i", "valueUse")], False, True),
+    ('''PRIMITIV_C_STATUS primitivG(primitivOptimizer_t *optimizer, primitivModel_t **models, size_t n) try {
+       Optimizer *cc = to_cpp_ptr(optimizer);
+       if (!models) { { std::stringstream ss; ss << "Argument `" "models" "` must not be null."; throw primitiv::Error("a.cc", 1, ss.str()); }; };
+       for (size_t i = 0; i < n; ++i) { cc->add(*to_cpp_ptr(models[i])); }
+       return 0;
+     } catch (const std::exception &e) { return primitiv::c::internal::ErrorHandler::get_instance().handle(e); }''',
+     {"optimizer": "inHandle", "models": "inHandleArray", "n": "count"},
+     [("models", "check"), ("n", "valueUse"), ("optimizer", "cppArrow"), ("models", "index"), ("models", "elemCppStar")], False, True),
+    ('''PRIMITIV_C_STATUS primitivH(const primitivShape_t *shape, primitivDevice_t *dev, char *retval, size_t *size) {
+       primitiv::c::internal::copy_string_to_array(f(*to_cpp_ptr(shape), to_cpp_ptr(dev)), retval, size);
+       while (true) { }
+       return 1;
+     }''',
+     {"shape": "inHandle", "dev": "inHandleNullable", "retval": "outBuf", "size": "sizeInOut"},
+     [("shape", "cppStar"), ("dev", "fwdCpp"), ("retval", "fwdBuf"), ("size", "sizeArg")], True, False),
+    ('''PRIMITIV_C_STATUS primitivI(uint32_t value, const char **names, size_t n) try {
+       if (!value) { { std::stringstream ss; ss << "Argument `" "value" "` must not be null."; throw primitiv::Error("a.cc", 1, ss.str()); }; };
+       g(std::vector<std::string>(names, names + n), value);
+       return 0;
+     } catch (...) { return 0; }''',
+     {"value": "value", "names": "inStringArray", "n": "count"},
+     [("value", "check"), ("names", "rangeString"), ("n", "valueUse"), ("value", "valueUse")], False, False),
+]
+
+
+def selftest():
+    """Returns a list of failures (empty = the translator still reads the fixed snippets the expected way)."""
+    bad = []
+    for k, (text, roles, uses, unsup, tryok) in enumerate(_SELFTEST):
+        toks = tokenize([("self.cc", i + 1, l) for i, l in enumerate(text.split("\n"))])
+        decls, defs, facts = scan_top(toks)
+        if len(defs) != 1 or "bad" in defs[0]:
+            bad.append("snippet %d: not recognised as one definition" % k)
+            continue
+        x = defs[0]
+        w = analyse_wrapper(x["name"], x["ptoks"], parse_block(x["body"]), x["handlers"], x["hasTry"], x["file"], x["line"])
+        got_roles = {P.name: P.role for P in w["params"]}
+        got_uses = [(w["params"][u["param"]].name, u["kind"]) for u in w["uses"]]
+        if got_roles != roles:
+            bad.append("snippet %d: roles %r" % (k, got_roles))
+        if got_uses != uses:
+            bad.append("snippet %d: uses %r" % (k, got_uses))
+        if bool(w["unsupported"]) != unsup:
+            bad.append("snippet %d: unsupported %r" % (k, w["unsupported"]))
+        ok = w["hasTry"] and w["handler"] == "stdException" and w["endsWithReturnOk"]
+        if ok != tryok:
+            bad.append("snippet %d: try block %r" % (k, (w["hasTry"], w["handler"], w["endsWithReturnOk"])))
+    return bad
